@@ -376,7 +376,14 @@ class MultiFit(FitBase):
             par_names=self._cost_function.arg_names,
             existing_behavior="replace",
         )
+        # the fitter is created anew for the new cost function: carry over fixed and limited parameters
+        _fixed_parameters = self._fitter.fixed_parameters
+        _limited_parameters = self._fitter.limited_parameters
         self._initialize_fitter()
+        for _par_name, _par_value in _fixed_parameters.items():
+            self._fitter.fix_parameter(_par_name, _par_value)
+        for _par_name, _par_limits in _limited_parameters.items():
+            self._fitter.limit_parameter(_par_name, _par_limits)
 
     def _initialize_fitter(self):
         self._fitter = NexusFitter(
